@@ -1002,3 +1002,141 @@ Proof.
   destruct (copier_progress N files sched F) as (t & Ht & E). fold c in E.
   rewrite (H t Ht) in E. discriminate.
 Qed.
+
+(* ------------------------------------------------------------------ termination *)
+
+(* every action consumes: a variant that strictly decreases at every enabled step *)
+Definition tw (t : tstate) : nat :=
+  match t with TData _ rest => length rest + 3 | TCloseSrc _ _ => 2 | TCloseDst _ _ => 1 end.
+Definition fw (f : file) : nat := length (fdata f) + 4.
+Definition iw (it : item) : nat := match it with Task f => fw f + 2 | Sentinel => 2 end.
+Definition ww (w : wstate) : nat :=
+  match w with WRun t => tw t + 1 | WTaskDone | WSentinel => 1 | _ => 0 end.
+Definition restw (N : nat) (todo : list file) : nat :=
+  sumf (fun f => fw f + 5) todo + 4 * N + 4.
+Definition pw (N : nat) (p : pstate) : nat :=
+  match p with
+  | POpenSrc todo => restw N todo
+  | POpenDst f todo => fw f + 4 + restw N todo
+  | PPut f todo => fw f + 3 + restw N todo
+  | PInline t todo => tw t + 1 + restw N todo
+  | PSentinels k => 3 * k + N + 3
+  | PJoins k => k + 2
+  | PQJoin => 1
+  | PReturned _ => 0
+  end.
+
+Definition mu (c : config) : nat :=
+  pw (cN c) (prod c) + sumf iw (queue c) + sumf ww (ws c).
+
+Lemma tw_step_inl : forall t t' hs, tstep t = (inl t', hs) -> tw t' < tw t.
+Proof.
+  intros [f [|[|] rest]|f b|f b] t' hs E; simpl in *; inversion E; subst; simpl; try lia.
+  destruct rest; simpl; lia.
+Qed.
+
+Lemma tw_pos : forall t, 1 <= tw t.
+Proof. destruct t; simpl; lia. Qed.
+
+Lemma tw_start : forall f, tw (start_task f) + 1 <= fw f.
+Proof. intros f; unfold start_task, fw. destruct (fdata f); simpl; lia. Qed.
+
+Theorem step_decreases : forall c t, enabled c t = true -> mu (step c t) < mu c.
+Proof.
+  intros c [|i]; unfold mu; simpl.
+  - unfold p_enabled, pstep. inv_c c.
+    destruct p as [[|f todo]|f todo|f todo|ts todo|[|k]|[|k]| |b]; simpl; intros En;
+      try discriminate.
+    + destruct (N =? 0); simpl; unfold restw; rewrite sumf_nil; lia.
+    + unfold restw; rewrite sumf_cons; lia.
+    + destruct (N =? 0); simpl; try lia. pose proof (tw_start f). lia.
+    + unfold room in *; simpl in *. rewrite En; simpl.
+      rewrite sumf_app, sumf_cons, sumf_nil; simpl. lia.
+    + destruct (tstep ts) as [[t'|[f [|]]] hs] eqn:T; simpl.
+      * pose proof (tw_step_inl _ _ _ T). lia.
+      * lia.
+      * lia.
+    + lia.
+    + unfold room in *; simpl in *. rewrite En; simpl.
+      rewrite sumf_app, sumf_cons, sumf_nil; simpl. lia.
+    + lia.
+    + destruct (nth_error wl (N - S k)) as [[| | | |]|]; try discriminate. simpl. lia.
+    + rewrite En; simpl. lia.
+  - unfold w_enabled, wstep. inv_c c.
+    destruct (nth_error wl i) as [w|] eqn:E; [|discriminate].
+    destruct w as [|ts| | |]; intros En; try discriminate.
+    + destruct q as [|[f|] q']; simpl in *; try discriminate.
+      * pose proof (sumf_upd _ ww wl i _ (WRun (start_task f)) E) as U. simpl in U.
+        rewrite sumf_cons. simpl. pose proof (tw_start f). lia.
+      * pose proof (sumf_upd _ ww wl i _ WSentinel E) as U. simpl in U.
+        rewrite sumf_cons. simpl. lia.
+    + destruct (tstep ts) as [[t'|[f failed]] hs] eqn:T.
+      * pose proof (sumf_upd _ ww wl i _ (WRun t') E) as U. simpl in U.
+        pose proof (tw_step_inl _ _ _ T). simpl. lia.
+      * pose proof (sumf_upd _ ww wl i _ WTaskDone E) as U. simpl in U.
+        pose proof (tw_pos ts). unfold do_verdict; destruct failed; simpl; lia.
+    + pose proof (sumf_upd _ ww wl i _ WIdle E) as U. simpl in U. simpl. lia.
+    + pose proof (sumf_upd _ ww wl i _ WStopped E) as U. simpl in U. simpl. lia.
+Qed.
+
+Fixpoint all_enabled (c : config) (sched : list nat) : bool :=
+  match sched with
+  | [] => true
+  | t :: s => enabled c t && all_enabled (step c t) s
+  end.
+
+(* a schedule made of enabled picks only cannot be longer than the variant: the number
+   of actions of a call is bounded, whatever the interleaving *)
+Theorem copier_bounded : forall sched c,
+  all_enabled c sched = true -> mu (run sched c) + length sched <= mu c.
+Proof.
+  induction sched as [|t s IH]; simpl; intros c H; [lia|].
+  apply andb_true_iff in H. destruct H as [En H].
+  specialize (IH _ H). pose proof (step_decreases c t En). lia.
+Qed.
+
+Lemma run_app : forall a b c, run (a ++ b) c = run b (run a c).
+Proof. intros; unfold run; apply fold_left_app. Qed.
+
+(* from every reachable configuration the call can still return: no deadlock and no
+   livelock; together with copier_bounded, every maximal run of enabled picks ends in a
+   final configuration *)
+Theorem copier_can_finish : forall N files sched,
+  exists more, final (run (sched ++ more) (init N files)) = true.
+Proof.
+  intros N files sched.
+  remember (mu (run sched (init N files))) as n eqn:Hn.
+  assert (Hle : mu (run sched (init N files)) <= n) by lia. clear Hn.
+  revert sched Hle. induction n as [|n IH]; intros sched Hle.
+  - destruct (final (run sched (init N files))) eqn:F.
+    + exists []. rewrite app_nil_r; auto.
+    + destruct (copier_progress N files sched F) as (t & _ & En).
+      pose proof (step_decreases _ _ En). lia.
+  - destruct (final (run sched (init N files))) eqn:F.
+    + exists []. rewrite app_nil_r; auto.
+    + destruct (copier_progress N files sched F) as (t & _ & En).
+      pose proof (step_decreases _ _ En) as D.
+      destruct (IH (sched ++ [t])) as (more & Hm).
+      * rewrite run_app; simpl. lia.
+      * exists (t :: more). rewrite <- app_assoc in Hm. simpl in Hm. exact Hm.
+Qed.
+
+(* ------------------------------------------------------------------ not covered
+   Everything stated above is proved (no Admitted).  What the model deliberately leaves
+   out, hence what no theorem here speaks about:
+
+   - a failure of the producer's own openbin (it raises in the producer, __exit__ runs
+     stop(); the harness exercises it: the call raises, workers are joined, files closed);
+   - copy_modified_time after the joins (preserve_time=True): no yield point, no effect on
+     the queue protocol;
+   - BaseException raised inside a worker (not caught by _Worker.run);
+   - the contents of the destination files: [copied] is the multiset of transfers that
+     ran to completion, the byte-level equality of each transfer is property C02/C05.
+
+   (* Theorem fair_schedule_finishes :
+        forall N files (s : nat -> nat), (every thread id <= N occurs infinitely often in s) ->
+        exists n, final (run (map s (seq 0 n)) (init N files)) = true.
+      Follows from copier_progress + step_decreases + disabled_skip, not formalised: it
+      needs a statement about infinite schedules that the rest of the development does
+      not use. *)
+*)
